@@ -1,5 +1,8 @@
 """Builders for signals of every class with index-encoding data."""
 
+import os
+import zlib
+
 import numpy as np
 import astropy.units as u
 from astropy.time import Time
@@ -41,11 +44,33 @@ def index_data(cls, L, shape, dtype=None):
     return x.astype(dtype or np.float64)
 
 
+LAYOUTS = ["c", "c", "c", "fortran", "strided", "reversed", "c", "strided"]
+
+
+def relayout(x, how):
+    """the same values in another memory layout (a harness dimension: a transform must not depend on the buffer's strides)"""
+    if not isinstance(x, np.ndarray) or x.ndim == 0 or how == "c":
+        return x
+    if how == "fortran":
+        return np.asfortranarray(x)
+    if how == "strided":                 # every other row of a buffer twice as long
+        buf = np.full((2 * x.shape[0],) + x.shape[1:], 7, dtype=x.dtype)
+        buf[::2] = x
+        return buf[::2]
+    if how == "reversed":                # negative stride along time
+        return np.ascontiguousarray(x[::-1])[::-1]
+    raise KeyError(how)
+
+
 def make(pb, cls, L, rate, t0=None, nchan=3, extra=(), center_freq=None, chan_bw=None,
-         freq_align="center", pol_type="linear", data=None, dtype=None, meta=None):
+         freq_align="center", pol_type="linear", data=None, dtype=None, meta=None, layout=None):
     shape = sample_shape(cls, nchan, extra)
     if data is None:
         data = index_data(cls, L, shape, dtype)
+    if layout != "keep" and os.environ.get("PBVERIF_LAYOUT", "1") != "0":
+        # deterministic per input: half of all NumPy-backed inputs are not C-contiguous
+        key = (zlib.crc32(repr((cls, int(L), tuple(np.shape(data)), str(rate), str(t0))).encode()) >> 3) % len(LAYOUTS)
+        data = relayout(data, layout or LAYOUTS[key])
     # arguments equal to their documented defaults are left out: the defaults are part of the interface
     kw = dict(sample_rate=rate)
     if t0 is not None:
